@@ -10,7 +10,7 @@ def dispatch (toks : List String) : IO String := do
     let r : Option String ←
       if op.startsWith "varint." || op.startsWith "serial." || op.startsWith "overflow." || op.startsWith "spec." then
         pure (Driver.Codec.handle toks)
-      else if op.startsWith "db." then
+      else if op.startsWith "db." || op.startsWith "vh." then
         (try Driver.Db.handle toks catch e => pure (some s!"io-error {e}"))
       else pure none
     pure (r.getD "bad-op")
